@@ -631,5 +631,70 @@ pub fn run(tier: Tier) -> i32 {
             ctx.scope_done(name, items.len() as u64, t0, "megabyte-sized valid streams, truncated and corrupted variants");
         }
     }
+    // ---------------------------------------------------------------- sinks of fixed capacity (Ok(0) for ever once they are full)
+    // `&mut [u8]` and a full pipe behave like this. Whatever the decoder or encoder does with Ok(0), it must return: a flush
+    // loop that retries "until everything is written" never does. Capacities around every place where output is handed over
+    // (window wrap by a literal and by a match, dictionary reset, chunk and block ends, the final flush).
+    {
+        let name = "sinks-of-fixed-capacity";
+        if ctx.may_start(name) {
+            let t0 = Instant::now();
+            let mut items: Vec<(String, Case)> = Vec::new();
+            let lit = |n: u32| -> Vec<Sym> { (0..n).map(|i| Sym::L((i * 37 + i / 7 + 1) as u8)).collect() };
+            let mut inputs: Vec<(String, Fmt, Opts, Vec<u8>, usize)> = Vec::new();
+            {
+                // window of 4096 filled by literals, wrap by a literal
+                let p = lit(4200);
+                let e = enc::encode(3, 0, 2, 4096, &p);
+                inputs.push(("lzma 4200 literals, dictionary 4096".into(), Fmt::Lzma, Opts::default(), enc::lzma_file(3, 0, 2, 4096, Some(e.expect.len() as u64), &e.payload), e.expect.len()));
+                // wrap inside a match
+                let mut p = lit(4090);
+                p.extend([Sym::M(100, 40), Sym::L(7), Sym::M(4096, 30)]);
+                let e = enc::encode(3, 0, 2, 4096, &p);
+                inputs.push(("lzma 4090 literals then copies across the wrap, marker".into(), Fmt::Lzma, Opts::default(), {
+                    let mut q = p.clone();
+                    q.push(Sym::E);
+                    let e2 = enc::encode(3, 0, 2, 4096, &q);
+                    enc::lzma_file(3, 0, 2, 4096, None, &e2.payload)
+                }, e.expect.len()));
+                let w = lzma2::write(&[Chunk::C { class: 3, props: (3, 0, 2), prog: lit(300) }, Chunk::U { reset: true, data: vec![9; 100] }, Chunk::C { class: 2, props: (0, 0, 0), prog: vec![Sym::M(50, 60), Sym::L(1)] }]);
+                inputs.push(("lzma2 three chunks with a dictionary reset".into(), Fmt::Lzma2, Opts::default(), w.bytes.clone(), w.expect.len()));
+                let f = XzFile { check_id: 1, blocks: vec![xz::Block { payload: w.bytes.clone(), plain: w.expect.clone(), ..Default::default() }, xz::Block { payload: w.bytes.clone(), plain: w.expect.clone(), ..Default::default() }], ..Default::default() };
+                inputs.push(("xz two blocks".into(), Fmt::Xz, Opts::default(), xz::build(&f).0, 2 * w.expect.len()));
+            }
+            for (label, fmt, opts, bytes, n) in &inputs {
+                let mut caps: Vec<usize> = vec![0, 1, 2, 99, 100, 299, 300, 301, 400, 401, 4095, 4096, 4097, 4129, 4130, 4131, n / 2, n.saturating_sub(1), *n];
+                caps.retain(|c| *c <= *n);
+                caps.sort_unstable();
+                caps.dedup();
+                for cap in caps {
+                    for chunk in [0usize, 1, 7] {
+                        let sk = Sk { full_after: Some(cap), chunk, ..Sk::default() };
+                        items.push((format!("{} into a sink that is full after {} bytes ({} per write)", label, cap, if chunk == 0 { "any number".to_string() } else { chunk.to_string() }), Case::Dec { fmt: *fmt, opts: *opts, input: Hex(bytes.clone()), rd: Rd::default(), sk: sk.clone() }));
+                        if *fmt == Fmt::Lzma {
+                            items.push((format!("Stream: {} into a sink that is full after {} bytes", label, cap), Case::Stream { opts: *opts, sk, ops: vec![crate::cases::SOp::WriteAll(Hex(bytes.clone())), crate::cases::SOp::Flush, crate::cases::SOp::Finish] }));
+                        }
+                    }
+                }
+            }
+            // encoders into full sinks
+            let data: Vec<u8> = (0..70_000u32).map(|i| (i.wrapping_mul(2654435761) >> 21) as u8).collect();
+            for fmt in [Fmt::Lzma, Fmt::Lzma2, Fmt::Xz] {
+                for cap in [0usize, 1, 5, 12, 13, 14, 24, 65536, 65550, 70_000] {
+                    items.push((format!("{:?} compress 70000 bytes into a sink that is full after {} bytes", fmt, cap), Case::Enc { fmt, size: crate::cases::EncSize::HeaderNone, input: Hex(data.clone()), rd: Rd::default(), sk: Sk { full_after: Some(cap), ..Sk::default() } }));
+                }
+            }
+            par_for(items.len() as u64, |i| {
+                let (label, case) = &items[i as usize];
+                let o = run_case(case);
+                ctx.eval(1);
+                ctx.nontriv(1);
+                if o.v.is_panic() || o.ops.iter().any(|r| r.v.is_panic()) {
+                    ctx.violation(case, &format!("{}: returns Ok or Err, never panics (a call that does not return is reported by the watchdog)", label), &o, None);
+                }
+            });
+            ctx.scope_done(name, items.len() as u64, t0, "decoders, Stream and encoders into sinks that stop accepting bytes");
+        }
+    }
     ctx.finish()
 }
